@@ -16,7 +16,7 @@ Abstractions (the correspondence run checks them, they are not assumed silently)
   validity of `states[i]`.
 * the model returns the *index* `j` at which the check failed; the code stores
   `lastValid.second = (double)(j-1)/(double)nd` and `lastValid.first = interpolate(s1,s2,that)`.
-  The fraction is `fracNum j / n` (`fracNum j = j - 1` as an integer: for `n = 0` it is `-1/0`).
+  The fraction is `fracOf j n` = `(j - 1)/n`, and `0` for `n = 0` (before the F124 fix: `-1/0`).
 * `int`/`unsigned int` are `Nat` (assumption: the segment count is below 2^31).
 * `interpolate`, `distance`, `isValid` are oracles (C07/C06's business); the cached Dubins path
   only matters through `pathOk` (Dubins3D `getPath` may fail).
@@ -78,8 +78,16 @@ def checkLinear (n : Nat) (v : Nat → Bool) : Result :=
 /-- numerator of the reported fraction: `(double)(j - 1)` with `int j`. -/
 def fracNum (j : Nat) : Int := (j : Int) - 1
 
+/-- the reported fraction as `(numerator, denominator)`, as coded since the F124 fix:
+`nd > 0 ? (double)(j - 1) / (double)nd : 0.0` (a zero-length motion has one point, the fraction 0). -/
+def fracOf (j n : Nat) : Int × Nat := if n = 0 then (0, 1) else (fracNum j, n)
+
 /-- `lastValid.second` as an exact fraction `(numerator, denominator)`. -/
 def Result.lastValid (r : Result) (n : Nat) : Option (Int × Nat) :=
+  r.failAt.map (fun j => fracOf j n)
+
+/-- the same before the F124 fix: `(double)(j - 1) / (double)nd` also for `nd = 0`, i.e. `-1/0`. -/
+def Result.lastValidOld (r : Result) (n : Nat) : Option (Int × Nat) :=
   r.failAt.map (fun j => (fracNum j, n))
 
 /-! ### two-argument form (end state first, then breadth-first bisection) -/
@@ -361,6 +369,42 @@ def constrained3 (hasFirst sat : Bool) (m : Nat) (geom : Bool) (v : Nat → Bool
   let q := (traverse m geom v).2.1 ++ (if askEnd then [m + 1] else [])
   if askEnd && v (m + 1) then ⟨true, none, false, q, 1, 0⟩
   else ⟨false, if hasFirst then some (traverse m geom v).2.2 else none, true, q, 0, 1⟩
+
+/-- the three constrained spaces differ in how their traversal treats the START state `s1` (index 0):
+`ProjectedStateSpace` never looks at it; `AtlasStateSpace` asks about it first, before anything is
+stored (an invalid start leaves the state list EMPTY); `TangentBundleStateSpace` (since 2365cedab)
+asks about it once after storing it, and only when `s2` is not already within tolerance. -/
+inductive TMode where
+  | proj | atlas | tb
+deriving Repr, DecidableEq
+
+/-- the traversal of each space: `(reached, indices asked, index of the last state stored, list empty)`.
+`m = 0 ∧ geom` is the adjacent case (`distance(s1, s2) <= delta`: arrived without a step). -/
+def traverseG (mode : TMode) (m : Nat) (geom : Bool) (v : Nat → Bool) : Bool × List Nat × Nat × Bool :=
+  let go (q : List Nat) : Bool × List Nat × Nat × Bool :=
+    ((traverse m geom v).1, q ++ (traverse m geom v).2.1, (traverse m geom v).2.2, false)
+  match mode with
+  | .proj => go []
+  | .atlas => if !v 0 then (false, [0], 0, true) else go [0]
+  | .tb => if m == 0 && geom then go [] else if !v 0 then (false, [0], 0, false) else go [0]
+
+/-- `ConstrainedMotionValidator::checkMotion(s1, s2)` over any of the three spaces (current code). -/
+def constrained2G (mode : TMode) (sat : Bool) (m : Nat) (geom : Bool) (v : Nat → Bool) : CResult :=
+  if !v (m + 1) then ⟨false, none, false, [m + 1], 0, 1⟩
+  else if !sat then ⟨false, none, false, [m + 1], 0, 1⟩
+  else if (traverseG mode m geom v).1 then ⟨true, none, false, (m + 1) :: (traverseG mode m geom v).2.1, 1, 0⟩
+  else ⟨false, none, false, (m + 1) :: (traverseG mode m geom v).2.1, 0, 1⟩
+
+/-- `ConstrainedMotionValidator::checkMotion(s1, s2, lastValid)` over any of the three spaces (current
+code), including the `stateList.empty()` branch (Atlas with an invalid start): `lastValid := (s1, 0)`. -/
+def constrained3G (mode : TMode) (hasFirst sat : Bool) (m : Nat) (geom : Bool) (v : Nat → Bool) : CResult :=
+  let t := traverseG mode m geom v
+  if t.2.2.2 then ⟨false, if hasFirst then some 0 else none, true, t.2.1, 0, 1⟩
+  else
+    let askEnd := t.1 && sat
+    let q := t.2.1 ++ (if askEnd then [m + 1] else [])
+    if askEnd && v (m + 1) then ⟨true, none, false, q, 1, 0⟩
+    else ⟨false, if hasFirst then some t.2.2.1 else none, true, q, 0, 1⟩
 
 /-- `TangentBundleSpaceInformation::checkMotion(s1, s2, lastValid)` as coded before fix 03f44d7d7 (F123): after the
 validator, `lastValid.first` is re-projected whenever it is non-null — also after a VALID motion,
